@@ -170,7 +170,11 @@ Print Assumptions C03_paths_flatten_range_meet_doc.
 Theorem C03_sort_family : forall pf,
   (forall by_ vs xs items, sort_items pf by_ (JArr vs) (JArr xs) = Val items ->
      Permutation items (combine vs xs) /\
-     ((forall a b, item_less pf a b = true -> item_less pf b a = false) -> lsorted pf items))
+     ((forall a b, item_less pf a b = true -> item_less pf b a = false) -> lsorted pf items) /\
+     (* stability: items that are pairwise tied keep their input order (so "the first value of each run" of
+        unique_by and the order inside a group of group_by are the input order) *)
+     (forall P : item -> bool, (forall a b, P a = true -> P b = true -> item_less pf a b = false) ->
+        filter P items = filter P (combine vs xs)))
   /\ (forall by_ vs xs out, f_unique_by pf by_ (JArr vs) (JArr xs) = Val out ->
        exists items sel, sort_items pf by_ (JArr vs) (JArr xs) = Val items /\ out = JArr sel /\ kept pf true JNull items sel)
   /\ (forall vs xs out, f_group_by pf (JArr vs) (JArr xs) = Val out ->
